@@ -549,7 +549,13 @@ def run_c15(rep, tier):
     pairs = [('v5', 'v5b'), ('hello_L', 'hello_noboost_L'), ('hello_mask0', 'hello_mask3'), ('byte17', 'u17_utf8_eci'), ('m3', 'm4q'), ('digits', 'digits_qr'),
              ('v10', 'v10b'), ('parts_user_alice', 'user'), ('kanji', 'hanzi'), ('hello_M', 'v5'), ('seq_sc3', 'seq_sc3_q')]
     common.use_repo()
-    evcount = {n: count_events(A[n]) for n in {x for p in pairs for x in p}}
+    # dry runs (line-event counts, function entry points) happen in forked helper processes: the parent must stay free of any
+    # call history, otherwise the workers forked from it would inherit warm caches and never see a first use
+    ctx0 = mp.get_context('fork')
+    with ctx0.Pool(common.NCPU, maxtasksperchild=1) as pool0:
+        need = sorted({x for p in pairs for x in p})
+        evcount = dict(zip(need, pool0.map(count_events, [A[n] for n in need], chunksize=1)))
+        entry_info = dict(zip(need, pool0.map(function_entry_events, [A[n] for n in need], chunksize=1)))
     nsched = 150 if tier == 'quick' else 3000
     step = max(1, len(schedules) // nsched)
     sched_tasks = []
@@ -570,7 +576,7 @@ def run_c15(rep, tier):
     sweep_pairs = [('v5', 'v5b'), ('hello_L', 'hello_noboost_L'), ('m3', 'm4q'), ('v10', 'v10b')] if tier == 'quick' else pairs
     grid = 48 if tier == 'quick' else 200
     for pa, pb in sweep_pairs:
-        entries, total = function_entry_events(A[pa])
+        entries, total = entry_info[pa]
         pts = set(entries) | {e + 3 for e in entries} | {max(1, (i * total) // grid) for i in range(1, grid)}
         for pt in sorted(x for x in pts if 0 < x < total):
             sched_tasks.append(([pa, pb], A, ref, [[0, pt], [1, 10 ** 9], [0, 10 ** 9]], f'single pre-emption of {pa} after {pt} of {total} line events, then {pb}'))
